@@ -226,6 +226,11 @@ fn main() {
             let seed: u64 = arg(&args, "--seed", "1").parse().unwrap();
             let budget: u64 = arg(&args, "--budget", "100").parse().unwrap();
             match falsify::run(&prop, seed, budget).or_else(|| cluster::run(&prop, seed, budget)).or_else(|| if prop == "C20" { Some(codecs::c20(seed, budget)) } else if prop == "C08" { Some(mirror::c08(seed, budget)) } else { None }) {
+                Some(mut o) if prop == "C02" => {
+                    // a fault-free exchange between members whose identities differ a lot in encoded size
+                    codecs::hid_exchange(seed, &mut o, "C02:false-suspicion-or-error");
+                    println!("{}", o.to_json().to_string())
+                }
                 Some(mut o) if prop == "C07" => {
                     codecs::c07_serde(seed, 1 + budget / 25, &mut o);
                     println!("{}", o.to_json().to_string())
